@@ -1158,6 +1158,11 @@ impl TypeChecker {
     ) -> TypeResult<(&'a Meta<Identifier>, Declaration)> {
         let mut ident = idents.next().unwrap();
 
+        // Only the very first identifier of a path is looked up through the
+        // scope graph (declarations, imports, parents). Anything after a
+        // leading `super` must be a direct member of that module.
+        let mut recurse = true;
+
         while ident.node == "super".into() {
             let Some(dec) = self.type_info.scope_graph.parent_module(scope)
             else {
@@ -1173,6 +1178,7 @@ impl TypeChecker {
             };
 
             scope = s;
+            recurse = false;
 
             let Some(tmp_ident) = idents.next() else {
                 return Ok((ident, dec));
@@ -1185,7 +1191,6 @@ impl TypeChecker {
         // The current implementation is a bit strange because it uses
         // resolve_name, but after the first identifier, it should actually
         // not really traverse the scope graph.
-        let mut recurse = true;
         loop {
             if ident.node == "super".into() {
                 return Err(self.error_simple(
